@@ -1090,7 +1090,16 @@ class PyCdlib:
                     else:
                         # For real files, create an inode that points to the
                         # location on disk.
-                        if extent_to_use in extent_to_inode:
+                        if len_to_use == 0:
+                            # Zero-length entries have no location on disk,
+                            # so there is nothing that could tell us that two
+                            # of them are the same file; each gets its own
+                            # Inode.
+                            ino = inode.Inode()
+                            ino.parse(extent_to_use, len_to_use, cdfp,
+                                      self.logical_block_size)
+                            self.inodes.append(ino)
+                        elif extent_to_use in extent_to_inode:
                             ino = extent_to_inode[extent_to_use]
                         else:
                             ino = inode.Inode()
@@ -2143,7 +2152,15 @@ class PyCdlib:
                         if self.eltorito_boot_catalog is not None and abs_file_data_extent == self.eltorito_boot_catalog.extent_location():
                             self.eltorito_boot_catalog.add_dirrecord(next_entry)
                         else:
-                            if abs_file_data_extent in extent_to_inode:
+                            if abs_file_data_extent == 0:
+                                # See the comment about zero-length entries
+                                # in _walk_directories().
+                                ino = inode.Inode()
+                                ino.parse(abs_file_data_extent,
+                                          next_entry.get_data_length(),
+                                          self._cdfp, self.logical_block_size)
+                                self.inodes.append(ino)
+                            elif abs_file_data_extent in extent_to_inode:
                                 ino = extent_to_inode[abs_file_data_extent]
                             else:
                                 ino = inode.Inode()
